@@ -9,6 +9,22 @@ Definition canonical_steps : list step := [SCheckExists; SSingle; SRunJob; SMark
 Lemma text_steps_link : text_steps = canonical_steps. Proof. reflexivity. Qed.
 Lemma pickle_steps_link : pickle_steps = canonical_steps. Proof. reflexivity. Qed.
 Lemma lock_release_link : runjob_lock_release = ReleaseFinally. Proof. reflexivity. Qed.
+Lemma local_kind_link : runjob_local_kind = TaskGenerator. Proof. reflexivity. Qed.
+Lemma task_boundary_gen : forall e s, task_boundary e s = (Err (in_generator e), s).
+Proof. intros. unfold task_boundary. rewrite local_kind_link. reflexivity. Qed.
+
+(* where an exception comes from, whatever class it was raised with (RuntimeError = a converted StopIteration) *)
+Definition from_write (e : exn) : Prop := (exists c, e = EWrite c) \/ e = ERuntime.
+Definition from_compute (e : exn) : Prop := (exists c, e = ECompute c) \/ e = ERuntime.
+Lemma from_write_gen : forall e, from_write e -> from_write (in_generator e).
+Proof. intros e [[c ->]| ->]; [destruct c; simpl; unfold from_write; eauto|right; reflexivity]. Qed.
+Lemma from_compute_gen : forall e, from_compute e -> from_compute (in_generator e).
+Proof. intros e [[c ->]| ->]; [destruct c; simpl; unfold from_compute; eauto|right; reflexivity]. Qed.
+Lemma from_compute_exn : forall p i a, from_compute (compute_exn p i a).
+Proof. intros. unfold compute_exn. destruct (cl p i a); [apply from_compute_gen|]; left; eauto. Qed.
+Lemma in_generator_not_stop : forall e, is_stop (in_generator e) = false.
+Proof. destruct e as [|[]|[]| | | | |]; reflexivity. Qed.
+
 Lemma lock_after_error_false : lock_after_error = false.
 Proof. unfold lock_after_error. rewrite lock_release_link. reflexivity. Qed.
 
@@ -129,7 +145,7 @@ Lemma dump_part : forall p done x s r s',
   dump p (TChild (NPart (length done))) (render x) s = (r, s') ->
   grow no_marker s s' /\ s_calls s' = S (s_calls s) /\
   ((r = Ok tt /\ wf p (s_calls s) = None /\ job_fs (done ++ [x]) [] (s_fs s'))
-   \/ (r = Err EWrite /\ wf p (s_calls s) <> None /\ TInv done s')).
+   \/ (exists e, r = Err e /\ from_write e /\ wf p (s_calls s) <> None /\ TInv done s')).
 Proof.
   intros p done x s r s' [tail [Ht Hj]] H. unfold dump in H.
   assert (G : forall f' r0, (exists t', tail_ok (length done) t' /\ job_fs done t' f') ->
@@ -140,15 +156,15 @@ Proof.
     exists [f']. split; [reflexivity|]. constructor; [|constructor]. eapply job_fs_no_marker; eauto. }
   destruct (wf p (s_calls s)) as [[| |j]|] eqn:W.
   - (* before *)
-    destruct (G (s_fs s) (Err EWrite)) as [Gg Gc]; [eauto|exact H|].
+    destruct (G (s_fs s) (Err (EWrite (wc p (s_calls s))))) as [Gg Gc]; [eauto|exact H|].
     split; [exact Gg|]. split; [exact Gc|].
-    inversion H; subst. right. split; [reflexivity|]. split; [discriminate|]. exists tail. simpl. auto.
+    inversion H; subst. right. eexists. split; [reflexivity|]. split; [left; eauto|]. split; [discriminate|]. exists tail. simpl. auto.
   - (* mkdir *)
     assert (Hm : exists t', tail_ok (length done) t' /\ job_fs done t' (mkdir_for (TChild (NPart (length done))) (s_fs s))).
     { exists tail. split; auto. apply mkdir_part; auto. }
     destruct (G _ _ Hm H) as [Gg Gc].
     split; [exact Gg|]. split; [exact Gc|].
-    inversion H; subst. right. split; [reflexivity|]. split; [discriminate|]. exact Hm.
+    inversion H; subst. right. eexists. split; [reflexivity|]. split; [left; eauto|]. split; [discriminate|]. exact Hm.
   - (* torn *)
     destruct (write_part done tail (s_fs s) (firstn j (render x)) Ht Hj) as [f' [Hw Hj']].
     rewrite Hw in H.
@@ -156,7 +172,7 @@ Proof.
     { eexists; split; [|exact Hj']. right; eauto. }
     destruct (G _ _ Hm H) as [Gg Gc].
     split; [exact Gg|]. split; [exact Gc|].
-    inversion H; subst. right. split; [reflexivity|]. split; [discriminate|]. exact Hm.
+    inversion H; subst. right. eexists. split; [reflexivity|]. split; [apply (from_write_gen (EWrite (wc p (s_calls s)))); left; eauto|]. split; [discriminate|]. exact Hm.
   - destruct (write_part done tail (s_fs s) (render x) Ht Hj) as [f' [Hw Hj']].
     rewrite Hw in H.
     assert (Hm : exists t', tail_ok (length done) t' /\ job_fs done t' f').
@@ -168,9 +184,18 @@ Qed.
 
 (* what a job can raise, and why: only faults that are in the plan *)
 Definition job_err (p : plan) (m : nat) (e : exn) : Prop :=
-  (e = EWrite /\ exists k, wf p k <> None) \/ (e = ECompute /\ exists i a, cf p i a = true) \/ (e = ENoRetries /\ m = 0).
+  (from_write e /\ exists k, wf p k <> None) \/ (from_compute e /\ exists i a, cf p i a = true) \/ (e = ENoRetries /\ m = 0).
 Lemma job_err_S : forall p k m e, job_err p (S k) e -> job_err p m e.
 Proof. intros p k m e [H|[H|[_ H]]]; [left|right; left|discriminate]; auto. Qed.
+Lemma job_err_gen : forall p m e, job_err p m e -> job_err p m (in_generator e).
+Proof.
+  intros p m e [[H K]|[[H K]|[-> K]]]; [left; split; auto using from_write_gen|right; left; split; auto using from_compute_gen|].
+  right; right; auto.
+Qed.
+Lemma job_err_write : forall p m e k, from_write e -> wf p k <> None -> job_err p m e.
+Proof. intros. left. eauto. Qed.
+Lemma job_err_compute : forall p m e i a, from_compute e -> cf p i a = true -> job_err p m e.
+Proof. intros. right. left. eauto. Qed.
 
 Lemma attempts_write : forall p x done rem a s r s',
   TInv done s ->
@@ -181,17 +206,24 @@ Proof.
   induction rem as [|rem IH]; intros a s r s' Hi H; simpl in H.
   - inversion H; subst. split; [apply grow_refl|]. right. exists ENoRetries. unfold job_err; intuition auto.
   - destruct (cf p (length done) a) eqn:C.
-    + destruct rem.
-      * inversion H; subst. split; [apply grow_refl|]. right. exists ECompute. unfold job_err; intuition eauto.
-      * apply IH in H; auto. destruct H as [G [R|[e [E [J T]]]]]; split; auto. right. exists e. eauto using job_err_S.
+    + assert (J : job_err p (S rem) (compute_exn p (length done) a))
+        by (eapply job_err_compute; [apply from_compute_exn|exact C]).
+      destruct (catchable (compute_exn p (length done) a)).
+      * destruct rem.
+        -- inversion H; subst. split; [apply grow_refl|]. right. eauto.
+        -- apply IH in H; auto. destruct H as [G [R|[e [E [J2 T]]]]]; split; auto. right. exists e. eauto using job_err_S.
+      * inversion H; subst. split; [apply grow_refl|]. right. eauto.
     + unfold write_act in H at 1.
       destruct (dump p (TChild (NPart (length done))) (render x) s) as [r1 s1] eqn:D.
-      destruct (dump_part _ _ _ _ _ _ Hi D) as [G [_ [[-> [_ Hj]]|[-> [Wn Hi1]]]]].
+      destruct (dump_part _ _ _ _ _ _ Hi D) as [G [_ [[-> [_ Hj]]|[e1 [-> [Fw [Wn Hi1]]]]]]].
       * inversion H; subst. split; auto.
-      * destruct rem.
-        -- inversion H; subst. split; auto. right. exists EWrite. unfold job_err; intuition eauto.
-        -- apply IH in H; auto. destruct H as [G2 R]. split; [eapply grow_trans; eauto|].
-           destruct R as [R|[e [E [J T]]]]; auto. right. exists e. eauto using job_err_S.
+      * assert (J : job_err p (S rem) e1) by (eapply job_err_write; eauto).
+        destruct (catchable e1).
+        -- destruct rem.
+           ++ inversion H; subst. split; auto. right. eauto.
+           ++ apply IH in H; auto. destruct H as [G2 R]. split; [eapply grow_trans; eauto|].
+              destruct R as [R|[e [E [J2 T]]]]; auto. right. exists e. eauto using job_err_S.
+        -- inversion H; subst. split; auto. right. eauto.
 Qed.
 
 Lemma tasks_write : forall p m todo done s r s',
@@ -209,7 +241,8 @@ Proof.
     + replace (S (length done)) with (length (done ++ [x])) in H by (rewrite app_length; simpl; lia).
       apply IH in H; auto. destruct H as [G2 R]. split; [eapply grow_trans; eauto|].
       rewrite <- app_assoc in R. simpl in R. exact R.
-    + inversion H; subst. split; auto. right. exists e. repeat split; auto.
+    + rewrite task_boundary_gen in H. inversion H; subst. split; auto. right. exists (in_generator e).
+      split; [reflexivity|]. split; [apply job_err_gen; auto|].
       exists done, (x :: todo). repeat split; auto. discriminate.
 Qed.
 
@@ -221,9 +254,12 @@ Proof.
   induction rem as [|rem IH]; intros a s r s' H; simpl in H.
   - inversion H; subst. split; auto. right. exists ENoRetries. unfold job_err; intuition auto.
   - destruct (cf p i a) eqn:C.
-    + destruct rem.
-      * inversion H; subst. split; auto. right. exists ECompute. unfold job_err; intuition eauto.
-      * apply IH in H. destruct H as [E [R|[e [E2 J]]]]; split; auto. right. exists e. eauto using job_err_S.
+    + assert (J : job_err p (S rem) (compute_exn p i a)) by (eapply job_err_compute; [apply from_compute_exn|exact C]).
+      destruct (catchable (compute_exn p i a)).
+      * destruct rem.
+        -- inversion H; subst. split; auto. right. eauto.
+        -- apply IH in H. destruct H as [E [R|[e [E2 J2]]]]; split; auto. right. exists e. eauto using job_err_S.
+      * inversion H; subst. split; auto. right. eauto.
     + unfold noop_act in H at 1. inversion H; subst. auto.
 Qed.
 
@@ -236,7 +272,7 @@ Proof.
   - destruct (attempts p (noop_act A i x) i m 1 s) as [r1 s1] eqn:E.
     apply attempts_noop in E. destruct E as [-> [->|[e [-> He]]]].
     + apply IH in H. exact H.
-    + inversion H; subst. split; auto. right. eauto.
+    + rewrite task_boundary_gen in H. inversion H; subst. split; auto. right. eauto using job_err_gen.
 Qed.
 
 (* Context.runJob around a body that keeps the lock flag: the lock is free afterwards *)
@@ -266,7 +302,7 @@ Lemma dump_marker : forall p xs s r s',
   dump p (TChild NMarker) [] s = (r, s') ->
   s_locked s' = s_locked s /\ s_calls s' = S (s_calls s) /\ s_hist s' = s_hist s ++ [s_fs s'] /\
   ((r = Ok tt /\ wf p (s_calls s) = None /\ s_fs s' = complete_dir xs)
-   \/ (r = Err EWrite /\
+   \/ (exists e, r = Err e /\ from_write e /\
        ((no_marker (s_fs s') /\ job_fs xs [] (s_fs s') /\ (wf p (s_calls s) = Some WBefore \/ wf p (s_calls s) = Some WMkdir))
         \/ (s_fs s' = complete_dir xs /\ exists j, wf p (s_calls s) = Some (WTorn j))))).
 Proof.
@@ -276,12 +312,13 @@ Proof.
     rewrite set_child_absent; auto. apply lookup_part_marker. }
   assert (NM : no_marker (s_fs s)) by (eapply job_fs_no_marker; [|exact Hj]; left; auto).
   destruct (wf p (s_calls s)) as [[| |j]|] eqn:E.
-  - inversion H; subst; simpl. repeat split; auto. right. split; auto.
-  - inversion H; subst; simpl. repeat split; auto. right. split; auto. left.
+  - inversion H; subst; simpl. repeat split; auto. right. eexists. split; [reflexivity|]. split; [left; eauto|]. auto.
+  - inversion H; subst; simpl. repeat split; auto. right. eexists. split; [reflexivity|]. split; [left; eauto|]. left.
     assert (J : job_fs xs [] (mkdir_for (TChild NMarker) (s_fs s))) by (apply mkdir_part; auto).
     repeat split; auto. eapply job_fs_no_marker; [|exact J]. left; auto.
   - replace (firstn j []) with (@nil N) in H by (destruct j; reflexivity). rewrite W in H.
-    inversion H; subst; simpl. repeat split; auto. right. split; auto. right. eauto.
+    inversion H; subst; simpl. repeat split; auto. right. eexists. split; [reflexivity|].
+    split; [apply (from_write_gen (EWrite (wc p (s_calls s)))); left; eauto|]. right. eauto.
   - rewrite W in H. inversion H; subst; simpl. repeat split; auto.
 Qed.
 
@@ -295,7 +332,7 @@ Definition save_post (p : plan) (m : nat) (xs : list A) (r : res unit) (s' : st)
   ((r = Ok tt /\ s_fs s' = match xs with [x] => FFile (render x) | _ => complete_dir xs end)
    \/ (exists e, r = Err e /\ job_err p m e /\
         (no_marker (s_fs s')
-         \/ (s_fs s' = complete_dir xs /\ e = EWrite /\ exists j, wf p (pred (s_calls s')) = Some (WTorn j))))).
+         \/ (s_fs s' = complete_dir xs /\ from_write e /\ exists j, wf p (pred (s_calls s')) = Some (WTorn j))))).
 
 Lemma save_multi : forall p m xs c0 r s',
   (forall x, xs <> [x]) ->
@@ -320,7 +357,7 @@ Proof.
     destruct (dump p (TChild NMarker) [] (set_locked false s1')) as [r2 s2] eqn:D.
     apply dump_marker with (xs := xs) in D; [|exact Hj].
     destruct D as [L2 [C2 [H2' R2]]].
-    destruct R2 as [[-> [_ Fs]]|[-> R2]].
+    destruct R2 as [[-> [_ Fs]]|[e2 [-> [Fw R2]]]].
     + inversion H2; subst. unfold save_post. rewrite L2, L. split; auto.
       assert (HE : hent xs (s_fs s')) by (right; auto).
       split. { rewrite H2'. simpl. apply Forall_app. split; [apply Forall_hent; auto|]. constructor; auto. }
@@ -330,7 +367,7 @@ Proof.
       split. { rewrite H2'. simpl. apply Forall_app. split; [apply Forall_hent; auto|]. constructor; auto. }
       assert (Wn : wf p (s_calls (set_locked false s1')) <> None).
       { destruct R2 as [[_ [_ [W|W]]]|[_ [j W]]]; rewrite W; discriminate. }
-      split; auto. right. exists EWrite. split; auto. split; [left; split; eauto|].
+      split; auto. right. exists e2. split; auto. split; [eapply job_err_write; eauto|].
       destruct R2 as [[N _]|[Fs [j W]]]; [left; auto|right]. split; auto. split; auto.
       exists j. rewrite C2. simpl. exact W.
   - inversion H2; subst. unfold save_post.
@@ -353,14 +390,17 @@ Proof.
   apply run_job_spec in J; [|reflexivity]. destruct J as [s1' [B ->]].
   apply tasks_noop in B. destruct B as [-> [->|[e [-> He]]]].
   - unfold dump in H. simpl in H.
-    assert (K : forall f r0, no_marker f -> (r0 = Ok tt /\ f = FFile (render x) \/ r0 = Err EWrite /\ wf p c0 <> None) ->
+    assert (K : forall f r0, no_marker f -> (r0 = Ok tt /\ f = FFile (render x) \/ (exists e, r0 = Err e /\ from_write e) /\ wf p c0 <> None) ->
                (r0, mkst f (S c0) false [f]) = (r, s') ->
                save_post p m [x] r s' /\ no_marker (s_fs s') /\ Forall no_marker (s_hist s')).
     { intros f r0 N R E. inversion E; subst; simpl. split; [|split; auto].
       unfold save_post; simpl. split; auto. split. { constructor; auto. left; auto. }
       split. { left; auto. }
-      destruct R as [[-> ->]|[-> Wn]]; [left; auto|right]. exists EWrite. split; auto. split; [left; split; eauto|auto]. }
-    destruct (wf p c0) as [[| |j]|] eqn:W; eapply K; try exact H; unfold no_marker; simpl; auto; right; split; auto; discriminate.
+      destruct R as [[-> ->]|[[e [-> Fw]] Wn]]; [left; auto|right]. exists e. split; auto. split; [eapply job_err_write; eauto|auto]. }
+    assert (Fg : from_write (in_generator (EWrite (wc p c0)))) by (apply from_write_gen; left; eauto).
+    assert (Fd : from_write (EWrite (wc p c0))) by (left; eauto).
+    destruct (wf p c0) as [[| |j]|] eqn:W; eapply K; try exact H; unfold no_marker; simpl; auto;
+      right; (split; [eexists; split; [reflexivity|assumption]|discriminate]).
   - inversion H; subst; simpl. split; [|split; [reflexivity|constructor]].
     unfold save_post; simpl. split; auto. split; [constructor|]. split; [left; reflexivity|].
     right. exists e. split; auto. split; auto. left. reflexivity.
@@ -427,7 +467,7 @@ Qed.
 Theorem failure_no_marker : forall sv p m xs c0 e s',
   save A render sv p m xs (init_st FAbsent c0 false) = (Err e, s') ->
   child (s_fs s') NMarker = None
-  \/ (s_fs s' = complete_dir xs /\ e = EWrite /\ exists j, wf p (pred (s_calls s')) = Some (WTorn j)).
+  \/ (s_fs s' = complete_dir xs /\ from_write e /\ exists j, wf p (pred (s_calls s')) = Some (WTorn j)).
 Proof.
   intros sv p m xs c0 e s' H. apply save_spec in H. destruct H as [_ [_ [_ [[H _]|[e' [H [_ R]]]]]]]; [discriminate|].
   inversion H; subst. exact R.
@@ -448,8 +488,8 @@ Theorem failure_is_injected_fault : forall sv p m xs f0 c0 e s',
   1 <= m ->
   save A render sv p m xs (init_st f0 c0 false) = (Err e, s') ->
   (e = EExists /\ fs_exists f0 = true)
-  \/ (e = EWrite /\ exists k, wf p k <> None)
-  \/ (e = ECompute /\ exists i a, cf p i a = true).
+  \/ (from_write e /\ exists k, wf p k <> None)
+  \/ (from_compute e /\ exists i a, cf p i a = true).
 Proof.
   intros sv p m xs f0 c0 e s' Hm H.
   destruct (fs_exists f0) eqn:X.
@@ -470,10 +510,13 @@ Qed.
 (* a partition whose computation fails on every attempt *)
 Lemma attempts_cf_all : forall p act i rem a s,
   1 <= rem -> (forall a', a <= a' < a + rem -> cf p i a' = true) ->
-  attempts p act i rem a s = (Err ECompute, s).
+  exists e, attempts p act i rem a s = (Err e, s) /\ from_compute e.
 Proof.
   induction rem as [|rem IH]; intros a s Hr Hc; [lia|]. simpl.
-  rewrite Hc by lia. destruct rem; [reflexivity|]. apply IH; [lia|]. intros a' Ha. apply Hc. lia.
+  rewrite Hc by lia. destruct (catchable (compute_exn p i a)).
+  - destruct rem; [eexists; split; [reflexivity|apply from_compute_exn]|].
+    apply IH; [lia|]. intros a' Ha. apply Hc. lia.
+  - eexists; split; [reflexivity|apply from_compute_exn].
 Qed.
 
 Lemma tasks_cf_err : forall p act m xs off k s r s',
@@ -483,9 +526,11 @@ Proof.
   induction xs as [|x xs IH]; intros off k s r s' Hm Hk Hc H; simpl in *; [lia|].
   destruct (attempts p (act off x) off m 1 s) as [[u|e] s1] eqn:E.
   - destruct k.
-    + rewrite Nat.add_0_r in Hc. rewrite attempts_cf_all in E; auto; [discriminate|]. intros a' Ha. apply Hc. lia.
+    + rewrite Nat.add_0_r in Hc. destruct (attempts_cf_all p (act off x) off m 1 s) as [e [E2 _]]; auto.
+      { intros a' Ha. apply Hc. lia. }
+      rewrite E2 in E. discriminate.
     + eapply (IH (S off) k); eauto; [lia|]. intros a Ha. replace (S off + k) with (off + S k) by lia. auto.
-  - inversion H; subst. eauto.
+  - rewrite task_boundary_gen in H. inversion H; subst. eauto.
 Qed.
 
 Lemma run_job_err : forall (body : st -> res unit * st) s r s',
@@ -495,54 +540,48 @@ Proof.
   intros body s r s' L H Hb. apply run_job_spec in H; auto. destruct H as [s1 [B _]]. eauto.
 Qed.
 
+Lemma job_err_origin : forall p m e, 1 <= m -> job_err p m e -> from_compute e \/ from_write e.
+Proof. intros p m e Hm [[H _]|[[H _]|[_ H]]]; auto. lia. Qed.
+
 Theorem compute_failure_surfaces : forall sv p m xs c0 i r s',
   1 <= m -> i < length xs -> (forall a, 1 <= a <= m -> cf p i a = true) ->
   save A render sv p m xs (init_st FAbsent c0 false) = (r, s') ->
-  exists e, r = Err e /\ (e = ECompute \/ e = EWrite) /\ child (s_fs s') NMarker = None.
+  exists e, r = Err e /\ (from_compute e \/ from_write e) /\ child (s_fs s') NMarker = None.
 Proof.
   intros sv p m xs c0 i r s' Hm Hi Hc H.
-  assert (E : exists e, r = Err e).
-  { unfold save in H. rewrite steps_of_canonical in H.
-    destruct xs as [|x [|y xs]]; [simpl in Hi; lia| |].
-    - assert (H2 : match run_job (tasks A p (noop_act A) m 0 [x]) (init_st FAbsent c0 false) with
-               | (Ok _, s1) => dump p TRoot (render x) s1
-               | (Err e, s1) => (Err e, s1) end = (r, s')) by exact H.
-      destruct (run_job (tasks A p (noop_act A) m 0 [x]) (init_st FAbsent c0 false)) as [r1 s1] eqn:J.
-      eapply run_job_err in J; [|reflexivity|].
-      + destruct J as [e ->]. inversion H2; subst. eauto.
-      + intros r2 s2 B. eapply (tasks_cf_err _ _ _ _ 0 i); eauto.
-    - assert (H2 : match run_job (tasks A p (write_act A render p) m 0 (x :: y :: xs)) (init_st FAbsent c0 false) with
-               | (Ok _, s1) => match dump p (TChild NMarker) [] s1 with
-                               | (Ok _, s2) => (Ok tt, s2) | (Err e, s2) => (Err e, s2) end
-               | (Err e, s1) => (Err e, s1) end = (r, s')) by exact H.
-      destruct (run_job (tasks A p (write_act A render p) m 0 (x :: y :: xs)) (init_st FAbsent c0 false)) as [r1 s1] eqn:J.
-      eapply run_job_err in J; [|reflexivity|].
-      + destruct J as [e ->]. inversion H2; subst. eauto.
-      + intros r2 s2 B. eapply (tasks_cf_err _ _ _ _ 0 i); eauto. }
-  destruct E as [e ->]. exists e. split; auto.
-  assert (P := save_spec _ _ _ _ _ _ _ H).
-  destruct P as [_ [_ [_ [[P _]|[e' [P [J R]]]]]]]; [discriminate|]. inversion P; subst e'.
-  destruct J as [[-> _]|[[-> _]|[_ J]]]; [| |lia].
-  - (* a write fault came first: then it was not the marker write, because the job never finished *)
-    split; auto. destruct R as [R|[Fs _]]; auto.
-    (* the marker write is only reached after the write job succeeded, which it cannot *)
-    exfalso. unfold save in H. rewrite steps_of_canonical in H.
-    destruct xs as [|x [|y xs]]; [simpl in Hi; lia| |].
-    + apply save_single in H. destruct H as [_ [N _]]. rewrite Fs in N. unfold no_marker in N.
-      rewrite complete_dir_marker in N. discriminate.
-    + assert (H2 : match run_job (tasks A p (write_act A render p) m 0 (x :: y :: xs)) (init_st FAbsent c0 false) with
-               | (Ok _, s1) => match dump p (TChild NMarker) [] s1 with
-                               | (Ok _, s2) => (Ok tt, s2) | (Err e, s2) => (Err e, s2) end
-               | (Err e, s1) => (Err e, s1) end = (Err EWrite, s')) by exact H.
-      destruct (run_job (tasks A p (write_act A render p) m 0 (x :: y :: xs)) (init_st FAbsent c0 false)) as [r1 s1] eqn:J.
-      assert (J' := J). apply run_job_spec in J'; [|reflexivity]. destruct J' as [s1' [B ->]].
-      assert (Eb : exists e, r1 = Err e) by (eapply (tasks_cf_err _ _ _ _ 0 i); eauto).
-      destruct Eb as [e ->]. inversion H2; subst.
-      change 0 with (length (@nil A)) in B. apply tasks_write in B; [|left; auto].
-      destruct B as [_ [[B _]|[e' [_ [_ [d [rest [_ [_ [tl [Ht Hj]]]]]]]]]]]; [discriminate|].
-      assert (N : no_marker (s_fs s1')) by (eapply job_fs_no_marker; eauto).
-      simpl in Fs. rewrite Fs in N. unfold no_marker in N. rewrite complete_dir_marker in N. discriminate.
-  - split; auto. destruct R as [R|[_ [R _]]]; auto. discriminate.
+  unfold save in H. rewrite steps_of_canonical in H.
+  destruct xs as [|x [|y xs]]; [simpl in Hi; lia| |].
+  - assert (H2 : match run_job (tasks A p (noop_act A) m 0 [x]) (init_st FAbsent c0 false) with
+             | (Ok _, s1) => dump p TRoot (render x) s1
+             | (Err e, s1) => (Err e, s1) end = (r, s')) by exact H.
+    destruct (run_job (tasks A p (noop_act A) m 0 [x]) (init_st FAbsent c0 false)) as [r1 s1] eqn:J.
+    apply run_job_spec in J; [|reflexivity]. destruct J as [s1' [B ->]].
+    assert (Eb : exists e, r1 = Err e) by (eapply (tasks_cf_err _ _ _ _ 0 i); eauto).
+    destruct Eb as [e ->]. inversion H2; subst.
+    apply tasks_noop in B. destruct B as [-> [B|[e' [B J]]]]; [discriminate|]. inversion B; subst e'.
+    exists e. split; auto. split; [eapply job_err_origin; eauto|reflexivity].
+  - assert (H2 : match run_job (tasks A p (write_act A render p) m 0 (x :: y :: xs)) (init_st FAbsent c0 false) with
+             | (Ok _, s1) => match dump p (TChild NMarker) [] s1 with
+                             | (Ok _, s2) => (Ok tt, s2) | (Err e, s2) => (Err e, s2) end
+             | (Err e, s1) => (Err e, s1) end = (r, s')) by exact H.
+    destruct (run_job (tasks A p (write_act A render p) m 0 (x :: y :: xs)) (init_st FAbsent c0 false)) as [r1 s1] eqn:J.
+    apply run_job_spec in J; [|reflexivity]. destruct J as [s1' [B ->]].
+    assert (Eb : exists e, r1 = Err e) by (eapply (tasks_cf_err _ _ _ _ 0 i); eauto).
+    destruct Eb as [e ->]. inversion H2; subst.
+    change 0 with (length (@nil A)) in B. apply tasks_write in B; [|left; auto].
+    destruct B as [_ [[B _]|[e' [B [J [d [rest [_ [_ [tl [Ht Hj]]]]]]]]]]]; [discriminate|]. inversion B; subst e'.
+    exists e. split; auto. split; [eapply job_err_origin; eauto|].
+    simpl. eapply job_fs_no_marker; eauto.
+Qed.
+
+(* a job never lets a bare StopIteration out: what Context.runJob raises is never taken for "end of iteration" *)
+Lemma tasks_never_stop : forall (B : Type) p (act : nat -> B -> st -> res unit * st) m ys i s e s',
+  tasks B p act m i ys s = (Err e, s') -> is_stop e = false.
+Proof.
+  induction ys as [|y ys IH]; intros i s e s' H; simpl in H; [discriminate|].
+  destruct (attempts p (act i y) i m 1 s) as [[u|e1] s1].
+  - eapply IH; eauto.
+  - rewrite task_boundary_gen in H. inversion H; subst. apply in_generator_not_stop.
 Qed.
 
 (* ---------- the context remains usable ---------- *)
@@ -580,7 +619,7 @@ Lemma tasks_app : forall p act m xs ys i s,
 Proof.
   induction xs as [|x xs IH]; intros ys i s; simpl.
   - rewrite Nat.add_0_r. reflexivity.
-  - destruct (attempts p (act i x) i m 1 s) as [[u|e] s1]; auto.
+  - destruct (attempts p (act i x) i m 1 s) as [[u|e] s1]; [|rewrite task_boundary_gen; reflexivity].
     rewrite IH. replace (S i + length xs) with (i + S (length xs)) by lia. reflexivity.
 Qed.
 
@@ -591,12 +630,12 @@ Lemma attempts_ok_first : forall p x done rem a s,
 Proof.
   intros p x done rem a s Hi Hc Hw. simpl. rewrite Hc. unfold write_act at 1.
   destruct (dump p (TChild (NPart (length done))) (render x) s) as [r1 s1] eqn:D.
-  destruct (dump_part _ _ _ _ _ _ Hi D) as [[L _] [C [[-> [_ Hj]]|[_ [Wn _]]]]]; [|contradiction].
+  destruct (dump_part _ _ _ _ _ _ Hi D) as [[L _] [C [[-> [_ Hj]]|[e1 [_ [_ [Wn _]]]]]]]; [|contradiction].
   exists s1. auto.
 Qed.
 
 Lemma tasks_prefix_ok : forall p m todo done s,
-  1 <= m -> (forall i a, cf p i a = false) -> job_fs done [] (s_fs s) ->
+  1 <= m -> (forall i a, length done <= i < length done + length todo -> cf p i a = false) -> job_fs done [] (s_fs s) ->
   (forall k, s_calls s <= k < s_calls s + length todo -> wf p k = None) ->
   exists s', tasks A p (write_act A render p) m (length done) todo s = (Ok tt, s')
              /\ s_calls s' = s_calls s + length todo /\ s_locked s' = s_locked s
@@ -606,11 +645,13 @@ Proof.
   - exists s. rewrite app_nil_r. repeat split; auto.
   - destruct m; [lia|].
     assert (Hi : TInv done s) by (exists []; split; [left; auto|auto]).
-    destruct (attempts_ok_first p x done m 1 s Hi (Hc _ _)) as [s1 [E [C1 [L1 Hj1]]]].
+    destruct (attempts_ok_first p x done m 1 s Hi) as [s1 [E [C1 [L1 Hj1]]]].
+    { apply Hc. simpl. lia. }
     { apply Hw. simpl. lia. }
     rewrite E.
     replace (S (length done)) with (length (done ++ [x])) by (rewrite app_length; simpl; lia).
     destruct (IH (done ++ [x]) s1) as [s2 [E2 [C2 [L2 Hj2]]]]; auto.
+    { intros i a Hi2. apply Hc. rewrite app_length in Hi2. simpl in *. lia. }
     { intros k Hk. apply Hw. simpl. lia. }
     exists s2. rewrite <- app_assoc in Hj2. simpl in Hj2. repeat split; auto; simpl; try lia. congruence.
 Qed.
@@ -619,18 +660,20 @@ Lemma attempts_all_wfail : forall p x done rem a s r s',
   TInv done s -> (forall a', cf p (length done) a' = false) -> 1 <= rem ->
   (forall k, s_calls s <= k < s_calls s + rem -> wf p k <> None) ->
   attempts p (write_act A render p (length done) x) (length done) rem a s = (r, s') ->
-  r = Err EWrite /\ s_calls s' = s_calls s + rem.
+  (exists e, r = Err e /\ from_write e) /\ s_calls s < s_calls s' <= s_calls s + rem.
 Proof.
   induction rem as [|rem IH]; intros a s r s' Hi Hc Hr Hw H; [lia|]. simpl in H.
   rewrite Hc in H. unfold write_act in H at 1.
   destruct (dump p (TChild (NPart (length done))) (render x) s) as [r1 s1] eqn:D.
-  destruct (dump_part _ _ _ _ _ _ Hi D) as [_ [C [[_ [Wn _]]|[-> [_ Hi1]]]]].
+  destruct (dump_part _ _ _ _ _ _ Hi D) as [_ [C [[_ [Wn _]]|[e1 [-> [Fw [_ Hi1]]]]]]].
   - exfalso. apply (Hw (s_calls s)); [lia|auto].
-  - destruct rem.
-    + inversion H; subst. split; auto. lia.
-    + apply IH in H; auto; [|lia|].
-      * destruct H as [-> C2]. split; auto. lia.
-      * intros k Hk. apply Hw. lia.
+  - destruct (catchable e1).
+    + destruct rem.
+      * inversion H; subst. split; [eauto|lia].
+      * apply IH in H; auto; [|lia|].
+        -- destruct H as [E C2]. split; auto. lia.
+        -- intros k Hk. apply Hw. lia.
+    + inversion H; subst. split; [eauto|lia].
 Qed.
 
 Lemma split_at : forall (xs : list A) k, k < length xs ->
@@ -658,7 +701,7 @@ Theorem write_failure_surfaces_part : forall sv p m xs c0 k r s',
   (forall k', c0 <= k' < c0 + k -> wf p k' = None) ->
   (forall k', c0 + k <= k' < c0 + k + m -> wf p k' <> None) ->
   save A render sv p m xs (init_st FAbsent c0 false) = (r, s') ->
-  r = Err EWrite /\ s_calls s' = c0 + k + m /\ child (s_fs s') NMarker = None.
+  (exists e, r = Err e /\ from_write e) /\ c0 + k < s_calls s' <= c0 + k + m /\ child (s_fs s') NMarker = None.
 Proof.
   intros sv p m xs c0 k r s' Hm Hn Hk Hc Hok Hbad H.
   assert (Hn' : forall x, xs <> [x]) by (intros x E; subst; apply Hn; reflexivity).
@@ -675,8 +718,8 @@ Proof.
   destruct (attempts p (write_act A render p (length d) x) (length d) m 1 s2) as [r3 s3] eqn:E3.
   assert (E3' := E3).
   apply attempts_all_wfail in E3; auto.
-  - destruct E3 as [-> C3]. inversion B; subst. inversion H; subst. simpl.
-    split; auto. split; [lia|].
+  - destruct E3 as [[e3 [-> Fw]] C3]. rewrite task_boundary_gen in B. inversion B; subst. inversion H; subst. simpl.
+    split; [eexists; split; [reflexivity|apply from_write_gen; auto]|]. split; [lia|].
     apply attempts_write in E3'; auto.
     destruct E3' as [_ [[Q _]|[e' [_ [_ [tl [Ht Hj]]]]]]]; [discriminate|].
     eapply job_fs_no_marker; eauto.
@@ -688,7 +731,7 @@ Theorem write_failure_surfaces_marker : forall sv p m xs c0 r s',
   (forall k', c0 <= k' < c0 + length xs -> wf p k' = None) ->
   wf p (c0 + length xs) <> None ->
   save A render sv p m xs (init_st FAbsent c0 false) = (r, s') ->
-  r = Err EWrite /\ s_calls s' = c0 + length xs + 1 /\
+  (exists e, r = Err e /\ from_write e) /\ s_calls s' = c0 + length xs + 1 /\
   forall i x, nth_error xs i = Some x -> child (s_fs s') (NPart i) = Some (render x).
 Proof.
   intros sv p m xs c0 r s' Hm Hn Hc Hok Hbad H.
@@ -701,9 +744,9 @@ Proof.
   simpl in E2, C2, Hj2. rewrite E2 in B. inversion B; subst.
   destruct (dump p (TChild NMarker) [] (set_locked false s1')) as [r2 s2] eqn:D.
   apply dump_marker with (xs := xs) in D; [|exact Hj2].
-  destruct D as [_ [C3 [_ [[_ [W _]]|[-> R]]]]].
+  destruct D as [_ [C3 [_ [[_ [W _]]|[e2 [-> [Fw R]]]]]]].
   - simpl in W. rewrite C2 in W. contradiction.
-  - inversion H; subst. split; auto. split; [simpl in C3; lia|].
+  - inversion H; subst. split; [eauto|]. split; [simpl in C3; lia|].
     intros i x Hx.
     assert (Q : forall ch, s_fs s' = FDir (part_files 0 xs ++ ch) -> child (s_fs s') (NPart i) = Some (render x)).
     { intros ch ->. simpl. apply lookup_app_some. apply (lookup_part_in xs 0 i x Hx). }
@@ -716,7 +759,7 @@ Qed.
 Theorem write_failure_surfaces_single : forall sv p m x c0 r s',
   1 <= m -> (forall a, cf p 0 a = false) -> wf p c0 <> None ->
   save A render sv p m [x] (init_st FAbsent c0 false) = (r, s') ->
-  r = Err EWrite /\ s_calls s' = S c0.
+  (exists e, r = Err e /\ from_write e) /\ s_calls s' = S c0.
 Proof.
   intros sv p m x c0 r s' Hm Hc Hw H.
   unfold save in H. rewrite steps_of_canonical in H.
@@ -726,7 +769,111 @@ Proof.
   clear H. unfold run_job in H2. simpl s_locked in H2. cbv iota in H2.
   destruct m; [lia|]. simpl tasks in H2. rewrite Hc in H2. unfold noop_act in H2 at 1.
   unfold dump in H2. simpl in H2.
-  destruct (wf p c0) as [[| |j]|]; [| | |contradiction]; inversion H2; subst; auto.
+  assert (Fg : from_write (in_generator (EWrite (wc p c0)))) by (apply from_write_gen; left; eauto).
+  assert (Fd : from_write (EWrite (wc p c0))) by (left; eauto).
+  destruct (wf p c0) as [[| |j]|]; [| | |contradiction]; inversion H2; subst; eauto.
+Qed.
+
+(* ---------- StopIteration: what the real code does with it today ---------- *)
+
+Lemma dump_not_compute : forall p t c s e s', dump p t c s = (Err e, s') -> forall k, e <> ECompute k.
+Proof.
+  intros p t c s e s' H k. unfold dump in H.
+  destruct (wf p (s_calls s)) as [[| |j]|].
+  - inversion H; subst. discriminate.
+  - inversion H; subst. discriminate.
+  - destruct (write_to t (firstn j c) (s_fs s)) as [f'|e0] eqn:W.
+    + inversion H; subst. destruct (wc p (s_calls s)); discriminate.
+    + inversion H; subst. destruct t, (s_fs s); simpl in W; inversion W; discriminate.
+  - destruct (write_to t c (s_fs s)) as [f'|e0] eqn:W.
+    + inversion H.
+    + inversion H; subst. destruct t, (s_fs s); simpl in W; inversion W; discriminate.
+Qed.
+
+Lemma run_job_never_stop : forall (B : Type) p (act : nat -> B -> st -> res unit * st) m ys s e s',
+  run_job (tasks B p act m 0 ys) s = (Err e, s') -> is_stop e = false.
+Proof.
+  intros B p act m ys s e s' H. unfold run_job in H. destruct (s_locked s).
+  - inversion H; subst. reflexivity.
+  - destruct (tasks B p act m 0 ys (set_locked true s)) as [[u|e1] s1] eqn:T; inversion H; subst.
+    eapply tasks_never_stop; eauto.
+Qed.
+
+(* a StopIteration raised by a partition computation never reaches the caller as StopIteration (it would be
+   taken for the end of an iteration): it crosses the generator of _runJob_local and arrives as RuntimeError *)
+Theorem compute_stop_never_bare : forall sv p m xs f0 c0 lk e s',
+  save A render sv p m xs (init_st f0 c0 lk) = (Err e, s') -> e <> ECompute KStop.
+Proof.
+  intros sv p m xs f0 c0 lk e s' H. unfold save in H. rewrite steps_of_canonical in H.
+  assert (NS : forall e0, is_stop e0 = false -> e0 <> ECompute KStop) by (intros e0 Hs ->; discriminate).
+  destruct (fs_exists f0) eqn:X.
+  { rewrite no_overwrite_canonical in H by auto. inversion H; subst. discriminate. }
+  destruct xs as [|x [|y xs]].
+  - rewrite run_canonical_multi in H by (intros x; discriminate). simpl s_fs in H. rewrite X in H.
+    destruct (run_job (tasks A p (write_act A render p) m 0 []) (init_st f0 c0 lk)) as [[u|e1] s1] eqn:J.
+    + destruct (dump p (TChild NMarker) [] s1) as [[u2|e2] s2] eqn:D; inversion H; subst. eapply dump_not_compute; eauto.
+    + inversion H; subst. apply NS. eapply run_job_never_stop; eauto.
+  - assert (H2 : (if fs_exists f0 then (Err EExists, init_st f0 c0 lk) else
+               match run_job (tasks A p (noop_act A) m 0 [x]) (init_st f0 c0 lk) with
+               | (Ok _, s1) => dump p TRoot (render x) s1
+               | (Err e, s1) => (Err e, s1) end) = (Err e, s')) by exact H.
+    rewrite X in H2.
+    destruct (run_job (tasks A p (noop_act A) m 0 [x]) (init_st f0 c0 lk)) as [[u|e1] s1] eqn:J.
+    + eapply dump_not_compute; eauto.
+    + inversion H2; subst. apply NS. eapply run_job_never_stop; eauto.
+  - rewrite run_canonical_multi in H by (intros x'; discriminate). simpl s_fs in H. rewrite X in H.
+    destruct (run_job (tasks A p (write_act A render p) m 0 (x :: y :: xs)) (init_st f0 c0 lk)) as [[u|e1] s1] eqn:J.
+    + destruct (dump p (TChild NMarker) [] s1) as [[u2|e2] s2] eqn:D; inversion H; subst. eapply dump_not_compute; eauto.
+    + inversion H; subst. apply NS. eapply run_job_never_stop; eauto.
+Qed.
+
+Lemma attempts_stop_all : forall p act i rem a s,
+  1 <= rem -> (forall a', a <= a' < a + rem -> cf p i a' = true /\ cc p i a' = KStop) ->
+  exists e, attempts p act i rem a s = (Err e, s) /\ in_generator e = ERuntime.
+Proof.
+  induction rem as [|rem IH]; intros a s Hr Hc; [lia|]. simpl.
+  destruct (Hc a ltac:(lia)) as [C K]. rewrite C.
+  assert (X : catchable (compute_exn p i a) = true /\ in_generator (compute_exn p i a) = ERuntime).
+  { unfold compute_exn. rewrite K. destruct (cl p i a); split; reflexivity. }
+  destruct X as [X1 X2]. rewrite X1.
+  destruct rem; [eauto|]. apply IH; [lia|]. intros a' Ha. apply Hc. lia.
+Qed.
+
+(* crash plan "partition i raises StopIteration on every attempt" (eagerly, lazily, or by next() on an empty
+   iterator), nothing else failing: the caller gets RuntimeError, partitions before i are written, no marker *)
+Theorem compute_stop_surfaces_as_runtime_error : forall sv p m xs c0 i r s',
+  1 <= m -> i < length xs ->
+  (forall a, 1 <= a <= m -> cf p i a = true /\ cc p i a = KStop) ->
+  (forall i' a, i' <> i -> cf p i' a = false) -> (forall k, wf p k = None) ->
+  save A render sv p m xs (init_st FAbsent c0 false) = (r, s') ->
+  r = Err ERuntime /\ s_calls s' = c0 + (if length xs =? 1 then 0 else i) /\ child (s_fs s') NMarker = None.
+Proof.
+  intros sv p m xs c0 i r s' Hm Hi Hs Hother Hw H.
+  unfold save in H. rewrite steps_of_canonical in H.
+  destruct xs as [|x [|y xs]]; [simpl in Hi; lia| |].
+  - assert (i = 0) by (simpl in Hi; lia). subst i.
+    assert (H2 : match run_job (tasks A p (noop_act A) m 0 [x]) (init_st FAbsent c0 false) with
+             | (Ok _, s1) => dump p TRoot (render x) s1
+             | (Err e, s1) => (Err e, s1) end = (r, s')) by exact H.
+    clear H. unfold run_job in H2. simpl s_locked in H2. cbv iota in H2. simpl tasks in H2.
+    destruct (attempts_stop_all p (noop_act A 0 x) 0 m 1 (set_locked true (init_st FAbsent c0 false))) as [e [E G]]; auto.
+    { intros a' Ha. apply Hs. lia. }
+    rewrite E, task_boundary_gen, G in H2. inversion H2; subst. simpl. repeat split; auto.
+  - set (ys := x :: y :: xs) in *.
+    rewrite run_canonical_multi in H by (intros x'; discriminate). simpl fs_exists in H. cbv iota in H.
+    destruct (split_at ys i Hi) as [d [z [rest [Eq Ld]]]]. rewrite Eq in H.
+    destruct (run_job (tasks A p (write_act A render p) m 0 (d ++ z :: rest)) (init_st FAbsent c0 false)) as [r1 s1] eqn:J.
+    apply run_job_spec in J; [|reflexivity]. destruct J as [s1' [B ->]].
+    rewrite tasks_app in B.
+    destruct (tasks_prefix_ok p m d [] (set_locked true (init_st FAbsent c0 false))) as [s2 [E2 [C2 [L2 Hj2]]]]; auto.
+    { intros i' a Hi'. apply Hother. simpl in Hi'. lia. }
+    { left; auto. }
+    simpl in E2, C2, Hj2. rewrite E2 in B. simpl in B.
+    destruct (attempts_stop_all p (write_act A render p (length d) z) (length d) m 1 s2) as [e [E G]]; auto.
+    { intros a' Ha. rewrite Ld. apply Hs. lia. }
+    rewrite E, task_boundary_gen, G in B. inversion B; subst. inversion H; subst. simpl.
+    split; auto. split; [lia|].
+    eapply job_fs_no_marker; [|exact Hj2]. left; reflexivity.
 Qed.
 
 (* ---------- reading a marked directory back ---------- *)
